@@ -11,8 +11,8 @@ E1 = 'Kani 0.68 proof harnesses over the compiled crate (CBMC 6.11 / CaDiCaL), c
 E2 = 'rustc MIR dump -> mir2c (C with explicit unwind edges) -> CBMC, counterexamples replayed natively with real unwinding'
 
 TEXT = {
-    'C01': ('E1', 'bounded model checking of the real code: one operation from every invariant state (all front positions x lengths x garbage bytes) with unconstrained arguments, return value and contents compared with a reference deque; closure probe makes one step inductive over histories. Decided by the SAT solver for N <= 4 (quick) / 6 (thorough).', 'symbolic execution of the compiled crate (Kani/CBMC) vs reference model'),
-    'C02': ('E1', 'bounded model checking: push_*/try_push_* from every invariant state; identity of the returned/stored element and absence of destructor runs asserted; N = 0 included.', 'symbolic execution (Kani/CBMC) with identity tokens'),
+    'C01': ('E1+E2', 'bounded model checking of the real code: one operation from every invariant state (all front positions x lengths x garbage bytes) with unconstrained arguments, return value and contents compared with a reference deque; closure probe makes one step inductive over histories. Decided by the SAT solver for N <= 4 (quick) / 6 (thorough).', 'symbolic execution of the compiled crate (Kani/CBMC) vs reference model'),
+    'C02': ('E1+E2', 'bounded model checking: push_*/try_push_* from every invariant state; identity of the returned/stored element and absence of destructor runs asserted; N = 0 included.', 'symbolic execution (Kani/CBMC) with identity tokens'),
     'C03': ('E1', 'bounded model checking: ownership conservation (every created object in exactly one place: buffer, caller, destroyed once) after each operation and after the final drop, for all layouts/garbage/arguments and all consumption scripts of drains and owning iterators.', 'symbolic execution (Kani/CBMC) with ownership ledger'),
     'C04': ('E1+E2', 'bounded model checking of non-interference: two buffers with equal contents but independent layout and independent solver-chosen bytes in unoccupied slots; every observation must coincide and every visible element must be live; Eq/Hash/Debug harnesses with symbolic garbage; after a caught panic the same liveness is decided on the MIR with its unwind edges.', 'two-run non-interference query (Kani/CBMC) + MIR-level liveness after panics'),
     'C05': ('E2', 'bounded model checking of the MIR with its unwind edges: symbolic state, argument and index of the panicking destructor call; post-condition at the modelled catch_unwind (no second drop, valid live distinct elements) and after the translated buffer destructor. Encoding validated against the real crate on thousands of concrete panicking runs per run.', 'MIR -> C with explicit unwinding -> CBMC, symbolic crash point'),
